@@ -80,7 +80,10 @@ func (g *copyGen) implementations(it *types.Named) []types.Type {
 // choice: whether interface-typed positions fork over all implementations.
 func (g *copyGen) expr(T types.Type, depth int, choice bool, pre *strings.Builder) string {
 	T = types.Unalias(T)
-	if depth > 4 {
+	// full population (two elements per container) down to depth 3, one element per container
+	// below that down to depth 8: recursive types (targetables in targetables, bodies in blocks in
+	// bodies) are populated two levels deeper than their own Copy() has to recurse
+	if depth > 8 {
 		return g.zero(T)
 	}
 	if n, ok := T.(*types.Named); ok && n.Obj().Pkg() != nil {
@@ -143,17 +146,20 @@ func (g *copyGen) expr(T types.Type, depth int, choice bool, pre *strings.Builde
 		b.WriteString("}")
 		return b.String()
 	case *types.Slice:
-		if depth > 3 {
+		if depth > 7 {
 			return g.zero(T)
 		}
 		if g.empty {
 			return g.ts(T) + "{}"
 		}
+		if depth > 3 {
+			return fmt.Sprintf("%s{%s}", g.ts(T), g.expr(u.Elem(), depth+1, false, pre))
+		}
 		return fmt.Sprintf("%s{%s, %s}", g.ts(T), g.expr(u.Elem(), depth+1, false, pre), g.expr(u.Elem(), depth+1, false, pre))
 	case *types.Array:
 		return g.zero(T)
 	case *types.Map:
-		if depth > 3 {
+		if depth > 7 {
 			return g.zero(T)
 		}
 		k1, k2 := `"k1"`, `"k2"`
@@ -163,6 +169,9 @@ func (g *copyGen) expr(T types.Type, depth int, choice bool, pre *strings.Builde
 		if _, named := u.Key().(*types.Named); named {
 			k1 = g.ts(u.Key()) + "(" + k1 + ")"
 			k2 = g.ts(u.Key()) + "(" + k2 + ")"
+		}
+		if depth > 3 {
+			return fmt.Sprintf("%s{%s: %s}", g.ts(T), k1, g.expr(u.Elem(), depth+1, false, pre))
 		}
 		return fmt.Sprintf("%s{%s: %s, %s: %s}", g.ts(T), k1, g.expr(u.Elem(), depth+1, false, pre), k2, g.expr(u.Elem(), depth+1, false, pre))
 	case *types.Interface:
